@@ -738,11 +738,10 @@ def run(ctx):
 
 
 def _pmap_small(fn, jobs):
-    import multiprocessing as mp
+    from core import fork_map
     if not jobs:
         return []
-    with mp.get_context("fork").Pool(min(16, len(jobs))) as pool:
-        return pool.map(fn, jobs, chunksize=1)
+    return fork_map(fn, jobs, nproc=min(16, len(jobs)), chunksize=1)
 
 
 # ---------------------------------------------------------------------------------- replay / shrink
